@@ -14,6 +14,7 @@ and `capellambse.helpers` (property C05).
 * `pyWords`, `splitLinks`        — `str.split()`, `helpers.split_links`
 * `createLink`, `followLink`, `followLinks` — the loader methods of the same names
 * `setLinks`                     — `AttrProxyAccessor.__set_links` (the attribute text written)
+* `attrInsert`, `attrDelete`     — `AttrProxyAccessor.insert` / `.delete` on a list written earlier
 
 Text is `List Char`; bytes are `List UInt8`. Core Lean only.
 -/
@@ -312,5 +313,23 @@ def setLinks (fromF : Frag) : List (Frag × El) → Except Err (List Str)
     | .ok s => match setLinks fromF rest with
       | .ok r => .ok (s :: r)
       | .error e => .error e
+
+/-! ### editing a list attribute that was written before
+
+Between two writes of one attribute the referrer or a member may have been moved into another file
+(`DirectProxyAccessor.insert` re-parents the element, its id is unchanged).  The state the writers see is
+the loader at the time of the write: every member comes with the fragment that holds it NOW. -/
+
+/-- `AttrProxyAccessor.insert(elmlist, index, value)` (the attribute text written; `0 ≤ index`):
+`objs = [*elmlist[:index], value, *elmlist[index:]]`, then `__set_links(parent, objs)` — the link of EVERY
+member is created anew, the text that stood in the attribute is not reused. -/
+def attrInsert (fromF : Frag) (members : List (Frag × El)) (index : Nat) (value : Frag × El) :
+    Except Err (List Str) :=
+  setLinks fromF (members.take index ++ value :: members.drop index)
+
+/-- `AttrProxyAccessor.delete(elmlist, obj)`: `objs = [i for i in elmlist if i._element is not obj._element]`,
+then `__set_links`; `index` is the position of `obj` in a list without repeated members. -/
+def attrDelete (fromF : Frag) (members : List (Frag × El)) (index : Nat) : Except Err (List Str) :=
+  setLinks fromF (members.eraseIdx index)
 
 end Capella.Links
